@@ -51,7 +51,7 @@ def arg_variants(I, tier, rng):
 
 def tasks(tier, seed):
     rng = random.Random(seed + 303)
-    shs = shapes.shape_set(tier, seed, quick_n=30, thorough_n=160)
+    shs = [s for s in shapes.shape_set(tier, seed, quick_n=30, thorough_n=160) if not lpchecks.is_wide(s)]
     out = []
     for i, I in enumerate(shs):
         for flags in lpchecks.flag_sets_for(I):
